@@ -18,7 +18,7 @@ claim('C02',
   text='Theorems: after every operation of every history (failed removals and replacements included) the table is a valid left-leaning red-black search tree: black root, valid red-black structure of one black height, '
        'red right child only beside a red left child, keys strictly ascending (C02_invariant; C02_put_step/C02_remove_step from any valid tree, which also show the unchecked dereferences of flip/rotate never hit NULL); '
        'the transcribed qtreetbl_check() returns 0 exactly on valid structures with a black root (C02_check_agrees); a lookup makes at most 2*log2(n+1) comparisons, stated as 2^cost <= (n+1)^2 (C02_lookup_cost). '
-       'The deletion proof needed the search order (shape preservation is key-dependent). The balancing helpers are tied to the source by translation: tools/gen_treeops.py turns clang\'s AST of is_red, flip_color, rotate_left, rotate_right, move_red_left, move_red_right, fix, find_min, find_max, remove_min, put_obj, find_obj, node_check_red and node_check_llrb into Gallina over a heap of node objects on every run (coq/Gen/TreeOps.v), and C02_c_helpers_refine / C02_c_flip_same_pointer / C02_c_find_min_max / C02_c_remove_min_refines / C02_c_put_obj_refines / C02_c_find_obj / C02_c_checkers prove that the translated text does on every heap that represents a tree with distinct node objects what the model\'s flip/rotl/rotr/mrl/mrr/fix_/tmin/tmax /rmin/put do on the tree (same shape, colours and node identities; remove_min releases exactly the least node object; put_obj for every comparator answer function, nothing outside the argument\'s nodes touched, no NULL dereferenced where the model does not Crash). remove_obj and the public functions are tied as for C01 (lockstep) plus qtreetbl_check(), an independent C invariant checker and a counting comparator after/around every operation.',
+       'The deletion proof needed the search order (shape preservation is key-dependent). The balancing helpers are tied to the source by translation: tools/gen_treeops.py turns clang\'s AST of is_red, flip_color, rotate_left, rotate_right, move_red_left, move_red_right, fix, find_min, find_max, remove_min, put_obj, remove_obj, find_obj, node_check_red and node_check_llrb into Gallina over a heap of node objects on every run (coq/Gen/TreeOps.v), and C02_c_helpers_refine / C02_c_flip_same_pointer / C02_c_find_min_max / C02_c_remove_min_refines / C02_c_put_obj_refines / C02_c_remove_obj_refines / C02_c_find_obj / C02_c_checkers prove that the translated text does on every heap that represents a tree with distinct node objects what the model\'s flip/rotl/rotr/mrl/mrr/fix_/tmin/tmax /rmin/put do on the tree (same shape, colours and node identities; remove_min releases exactly the least node object; put_obj for every comparator answer function, nothing outside the argument\'s nodes touched, no NULL dereferenced where the model does not Crash). the public wrappers (allocation of the copies, num, errno, locking) are tied as for C01 (lockstep) plus qtreetbl_check(), an independent C invariant checker and a counting comparator after/around every operation.',
   note='Trusted as C01, plus gen_treeops.py and clang\'s parser (the translator stops on any construct outside its subset; it drops increments of the _q_treetbl_*_cnt statistics counters and stores to errno). The independent checker in h_tree.c and qtreetbl_check() are monitors, not the reason the check passes.',
   technique='Rocq inductive invariant proof (LLRB shape classes for put/remove/remove_min) + C-to-Gallina translation of the balancing helpers with refinement proofs by symbolic execution + extracted-model lockstep with shape comparison',
   design='5.2')
